@@ -277,7 +277,9 @@ def run_pv(args, timeout=3600, env_extra=None):
             summary = d
     if p.returncode != 0 or summary is None:
         log(p.stderr[-3000:])
-        raise ToolError("harness failed (exit %d): %s" % (p.returncode, " ".join(cmd[:4])))
+        e = ToolError("harness failed (exit %d): %s" % (p.returncode, " ".join(cmd[:4])))
+        e.viols = viols   # what it reported before it failed is not lost
+        raise e
     log("[pv] %s: %d evaluations, %d violations, %.1fs" % (args[0], summary["evaluations"], len(viols), time.time() - t))
     return viols, summary
 
@@ -306,6 +308,9 @@ def match_finding(prop, v, findings):
     return None
 
 
+CURRENT = None
+
+
 class Check:
     """One run of one property's check."""
 
@@ -313,6 +318,8 @@ class Check:
         self.prop = prop
         self.tier = tier
         self.seed = seed
+        global CURRENT
+        CURRENT = self
         self.t0 = time.time()
         self.run_dir = os.path.join(os.environ.get("VERIF_RUN_ROOT") or WORK, "run-%s-%d" % (prop, os.getpid()))
         shutil.rmtree(self.run_dir, ignore_errors=True)
@@ -344,7 +351,11 @@ class Check:
             log("[pv] %s skipped: a hang was already reported in this run" % (label or args[0]))
             return [], {"evaluations": 0, "distinct": 0, "distinct_nontrivial": 0, "violations": 0, "samples": [], "label": label or args[0],
                         "extra": {"skipped": "a hang was already reported"}}
-        viols, summary = run_pv(args + ["--replay-dir", self.replay_dir, "--seed", self.seed], timeout=timeout, env_extra=env_extra)
+        try:
+            viols, summary = run_pv(args + ["--replay-dir", self.replay_dir, "--seed", self.seed], timeout=timeout, env_extra=env_extra)
+        except ToolError as e:
+            self.viols += getattr(e, "viols", [])
+            raise
         if env_extra:
             for v in viols:
                 v["detail"] = "%s [with %s in the environment]" % (v["detail"], ", ".join("%s=%s" % kv for kv in sorted(env_extra.items())))
